@@ -5,7 +5,7 @@ from props import ebb3sim as S
 from plotink import ebb3_motion, ebb3_serial
 
 ID = "C16"
-CFG = (True, True, True, False)
+CFG = (True, True, True, True)
 COQ_HEADER = "From Plotink Require Import Base.Prelude Base.PyStr Model.Serial3 Spec.Board Corr.S3 Corr.C16.\nOpen Scope Z_scope."
 COQ_RUN = "run16"
 COQ_CASE_TYPE = "case16"
